@@ -731,12 +731,130 @@ fn clone_shaper(s: &vharness::eval::otl::Shaper) -> vharness::eval::otl::Shaper 
     }
 }
 
+// ------------------------------------------------------------------------------------------- C08 (API level)
+/// Random strictly increasing user->design maps through `fontdrasil::coords::CoordConverter`: every conversion is
+/// compared with an own piecewise-linear model, round trips must return to the start, normalization must hit -1/0/+1
+/// at min/default/max and be monotonic.
+fn c08(seed: u64, n: usize) -> Value {
+    use fontdrasil::coords::{CoordConverter, DesignCoord, NormalizedCoord, UserCoord};
+    let mut rng = Rng(seed);
+    let mut violations: Vec<Value> = vec![];
+    let (mut maps, mut points, mut nontrivial) = (0usize, 0usize, 0usize);
+    fn pl(m: &[(f64, f64)], x: f64) -> f64 {
+        if x <= m[0].0 {
+            // extrapolate along the first segment? fontTools' piecewiseLinearMap offsets by the end difference
+            return x + (m[0].1 - m[0].0);
+        }
+        for w in m.windows(2) {
+            if x <= w[1].0 {
+                return w[0].1 + (w[1].1 - w[0].1) * (x - w[0].0) / (w[1].0 - w[0].0);
+            }
+        }
+        let l = m[m.len() - 1];
+        x + (l.1 - l.0)
+    }
+    for case in 0..n {
+        let k = 2 + rng.below(6);
+        let mut u = -100.0 + rng.unit() * 200.0;
+        let mut d = -50.0 + rng.unit() * 400.0;
+        let mut m: Vec<(f64, f64)> = vec![];
+        for _ in 0..k {
+            m.push((u, d));
+            u += [0.5, 1.0, 7.0, 50.0, 300.0][rng.below(5)] * (0.2 + rng.unit());
+            d += [0.05, 1.0, 3.0, 40.0, 500.0][rng.below(5)] * (0.2 + rng.unit());
+            if rng.chance(0.3) {
+                u = u.round();
+                d = d.round();
+                if let Some(l) = m.last() {
+                    if u <= l.0 { u = l.0 + 1.0; }
+                    if d <= l.1 { d = l.1 + 1.0; }
+                }
+            }
+        }
+        let di = rng.below(m.len());
+        let conv = match catch_unwind(AssertUnwindSafe(|| CoordConverter::new(m.iter().map(|(a, b)| (UserCoord::new(*a), DesignCoord::new(*b))).collect(), di))) {
+            Ok(Ok(c)) => c,
+            Ok(Err(e)) => {
+                violations.push(json!({"what": format!("CoordConverter::new rejected a strictly increasing map: {e}"), "map": m, "default": di, "case": case}));
+                continue;
+            }
+            Err(_) => {
+                violations.push(json!({"what": format!("CoordConverter::new panicked at {}", last_panic()), "map": m, "default": di, "case": case}));
+                continue;
+            }
+        };
+        maps += 1;
+        if m.iter().any(|(a, b)| (a - b).abs() > 1e-9) {
+            nontrivial += 1;
+        }
+        let (dmin, ddef, dmax) = (m[0].1, m[di].1, m[m.len() - 1].1);
+        let norm = |x: f64| -> f64 {
+            if x < ddef { if ddef == dmin { 0.0 } else { -(ddef - x) / (ddef - dmin) } } else if x > ddef { if dmax == ddef { 0.0 } else { (x - ddef) / (dmax - ddef) } } else { 0.0 }
+        };
+        let inv: Vec<(f64, f64)> = m.iter().map(|(a, b)| (*b, *a)).collect();
+        // sample user coordinates: nodes, midpoints, just inside the ends
+        let mut us: Vec<f64> = m.iter().map(|p| p.0).collect();
+        for w in m.windows(2) {
+            us.push((w[0].0 + w[1].0) / 2.0);
+            us.push(w[0].0 + (w[1].0 - w[0].0) * 0.137);
+        }
+        let mut prev_n = f64::NEG_INFINITY;
+        let mut sorted = us.clone();
+        sorted.sort_by(|a, b| a.total_cmp(b));
+        for &x in &sorted {
+            points += 1;
+            let uc = UserCoord::new(x);
+            let dc = uc.to_design(&conv);
+            let nc = uc.to_normalized(&conv);
+            let want_d = pl(&m, x);
+            let tol = 1e-9 * (1.0 + want_d.abs() + x.abs());
+            let mut bad = |what: String| {
+                if violations.len() < 20 {
+                    violations.push(json!({"what": what, "map": m, "default": di, "case": case}));
+                }
+            };
+            if (dc.to_f64() - want_d).abs() > tol {
+                bad(format!("user {x} -> design {} but the map gives {want_d}", dc.to_f64()));
+            }
+            let want_n = norm(want_d);
+            if (nc.to_f64() - want_n).abs() > 1e-9 {
+                bad(format!("user {x} -> normalized {} but min/default/max normalization of design {want_d} gives {want_n}", nc.to_f64()));
+            }
+            if nc.to_f64() < prev_n - 1e-12 {
+                bad(format!("normalization is not monotonic at user {x}: {} after {prev_n}", nc.to_f64()));
+            }
+            prev_n = nc.to_f64();
+            // round trips
+            let back_u = dc.to_user(&conv).to_f64();
+            if (back_u - x).abs() > 1e-7 * (1.0 + x.abs()) {
+                bad(format!("user {x} -> design {} -> user {back_u}", dc.to_f64()));
+            }
+            let back_d = NormalizedCoord::new(nc.to_f64()).to_design(&conv).to_f64();
+            if (back_d - want_d).abs() > 1e-7 * (1.0 + want_d.abs()) && dmin != dmax {
+                bad(format!("design {want_d} -> normalized {} -> design {back_d}", nc.to_f64()));
+            }
+            let _ = pl(&inv, want_d);
+        }
+        // the three anchors
+        for (x, want) in [(m[0].0, if di == 0 { 0.0 } else { -1.0 }), (m[di].0, 0.0), (m[m.len() - 1].0, if di == m.len() - 1 { 0.0 } else { 1.0 })] {
+            let got = UserCoord::new(x).to_normalized(&conv).to_f64();
+            if got != want {
+                if violations.len() < 20 {
+                    violations.push(json!({"what": format!("user {x} must normalize to exactly {want}, got {got}"), "map": m, "default": di, "case": case}));
+                }
+            }
+        }
+    }
+    json!({"maps": maps, "points": points, "nontrivial": nontrivial, "violations": violations})
+}
+
 fn main() {
     let args: Vec<String> = std::env::args().collect();
     let num = |i: usize, d: u64| args.get(i).and_then(|s| s.parse::<u64>().ok()).unwrap_or(d);
     match args.get(1).map(|s| s.as_str()).unwrap_or("") {
         "c07" => println!("{}", c07(num(2, 1), num(3, 1000) as usize)),
         "c16" => println!("{}", c16(num(2, 1), num(3, 1000) as usize)),
+        "c08" => println!("{}", c08(num(2, 1), num(3, 1000) as usize)),
         "c20" => std::process::exit(c20(&args[2], &args[3], &args[4])),
         "c13" => c13(&args[2], &args[3], &args[4], num(5, 0) as usize),
         "c11" => c11(&args[2], &args[3]),
